@@ -253,6 +253,7 @@ func (r *Reach) edge(p, b *ssa.BasicBlock, depth int) DNF {
 // andCond conjoins "cond == !neg" evaluated at the end of block p to base (=reach(p)), resolving
 // boolean negation and φ-nodes of the same block per incoming edge.
 func (r *Reach) andCond(p *ssa.BasicBlock, base DNF, cond ssa.Value, neg bool, depth int) DNF {
+	cond = SpilledValue(cond)
 	for {
 		if u, ok := cond.(*ssa.UnOp); ok && u.Op == token.NOT {
 			cond = u.X
